@@ -10,6 +10,7 @@ p = Project(root)
 out = {}
 locs = {}
 shapes = {}
+nested = {}
 from sa.engine.alias import binding_shapes
 def names_bound(fn):
     return sorted({n.id for n in ast.walk(fn) if isinstance(n, ast.Name) and isinstance(n.ctx, (ast.Store, ast.Del))} | {a.arg for a in ast.walk(fn) if isinstance(a, ast.arg)})
@@ -30,7 +31,8 @@ for m in p.by_rel.values():
                     locs[m.rel][f"{st.name}.{s.name}"] = names_bound(s)
                     shapes[m.rel][f"{st.name}.{s.name}"] = binding_shapes(s)
     out[m.rel] = sorted(quals)
+    nested[m.rel] = sorted({f.name for f in ast.walk(m.tree) if isinstance(f, (ast.FunctionDef, ast.AsyncFunctionDef)) and any(isinstance(x, ast.ListComp) and isinstance(x.elt, ast.ListComp) for x in ast.walk(f))})
 head = subprocess.run(["git", "-C", root, "rev-parse", "--short", "HEAD"], capture_output=True, text=True).stdout.strip()
 dst = os.path.join(os.path.dirname(os.path.dirname(os.path.abspath(__file__))), "sa", "inventory.json")
-json.dump({"_comment": "reference inventory of functions per module; see sa/engine/inline.py", "commit": head, "functions": out, "locals": locs, "bindings": shapes}, open(dst, "w"), indent=0, sort_keys=True)
+json.dump({"_comment": "reference inventory of functions per module; see sa/engine/inline.py", "commit": head, "functions": out, "locals": locs, "bindings": shapes, "nested_comprehensions": nested}, open(dst, "w"), indent=0, sort_keys=True)
 print("modules", len(out), "functions", sum(len(v) for v in out.values()), "at", head)
